@@ -427,9 +427,23 @@ def err_decode(h):
     mlen = h.int("message_length", 0, 65535)
     r = h.method(h.new(ERR + ":AcErrorInformationDecoder"), "decode", buf, at4_subheader(h, SUB_ERR, mlen))
     h.oblige("returns or rejects", only_rejects(h, r))
-    if not r.ok:
-        return
     n = h.length(buf)
+    if not r.ok:
+        # which data may be rejected: missing AC number / length byte, an announced length that exceeds the data
+        # (since the fix 'a string length byte larger than the message data was accepted'), text that is not UTF-8
+        h.oblige("rejects only with IndexError, DecodeError or UnicodeDecodeError", r.raised("IndexError", "DecodeError", "UnicodeDecodeError"))
+        if r.raised("IndexError"):
+            h.oblige("IndexError only when the AC number byte or (for a message) the length byte is missing",
+                     Or(n < 1, And(n < 2, mlen != 1)))
+        elif r.raised("DecodeError"):
+            h.assume(n >= 2)
+            b, _ = h.split_at(buf, 2)
+            h.oblige("DecodeError only for a message whose announced error info length exceeds the data", And(mlen != 1, 2 + b[1] > n))
+        elif r.raised("UnicodeDecodeError"):
+            h.assume(n >= 2)
+            b, _ = h.split_at(buf, 2)
+            h.oblige("UnicodeDecodeError only for a non-empty error text that lies wholly inside the data", And(mlen != 1, b[1] > 0, 2 + b[1] <= n))
+        return
     m = h.attr(r.value, "message")
     h.oblige("accepted only with the AC number byte present", n >= 1)
     h.assume(n >= 1)
@@ -578,8 +592,11 @@ def lemma_bitmap_bytes(h):
 def _install_ability_loop(h, buf, mlen):
     """Loop contract for `while offset < header.message_length` in AcAbilityDecoder.decode.  The cursor at the
     head of iteration k is OFF(k) with OFF(0) = 0 and OFF(k+1) = OFF(k) + 2 + (following length byte of record k)
-    - the stride the *document* defines ('count of following bytes belong to the ability of this AC'), not the
-    one the code computes; N is the first k with OFF(k) >= message_length (strides are >= 2, so N exists)."""
+    - the stride the *document* defines ('count of following bytes belong to the ability of this AC').  The loop
+    body (since the fix 'AC ability decoders ignored the announced following data length') computes
+    next_offset = offset + 2 + following_length, rejects following_length < 22, reads Byte27/28 when
+    following_length >= 24 and then sets offset = next_offset; `offset` and the list are the only state carried
+    around the loop.  N is the first k with OFF(k) >= message_length (strides are >= 2, so N exists)."""
     import z3
     from pyvc import sym
     from pyvc.sym import SInt
@@ -620,14 +637,13 @@ def _install_ability_loop(h, buf, mlen):
         cur = ABytes(buf.arr, buf.off + off(k), buf.ln - off(k), buf.name)
         b = [cur.at(i) for i in range(26)]
         fl = b[1]
-        known = Or(fl == ABILITY_FOLLOWING_OLD, fl == ABILITY_FOLLOWING_NEW)
-        h.oblige("xFF11-loop/following length 22 or 24: cursor advances by 2 + following length (24 / 26 bytes)",
-                 Implies(known, after["offset"] == off(k) + 2 + fl), kind="loop-preserve")
-        # C05 'record strides announced by the console are honoured', C17 'records longer than the known layout
-        # are decoded from their known prefix' (the body did not raise when we get here)
-        h.oblige("xFF11-loop/a record longer than a known layout (following length 23 or > 24) is decoded from its known prefix: cursor advances by the announced 2 + following length",
-                 Implies(Or(fl == 23, fl > ABILITY_FOLLOWING_NEW), after["offset"] == off(k) + 2 + fl), kind="loop-preserve")
+        # C05 'record strides announced by the console are honoured', C17 'records longer than the known layout are
+        # decoded from their known prefix'.  The body did not raise when we get here, so these two say: every record
+        # the loop accepts announces at least the 22 bytes of the oldest layout, and the next record is looked for
+        # exactly 2 + Byte4 bytes further - for 22 (24-byte record), 24 (26-byte record) and any longer layout alike.
         h.oblige("xFF11-loop/a following length that cannot hold the known layout (< 22) is rejected", fl >= ABILITY_FOLLOWING_OLD, kind="loop-preserve")
+        h.oblige("xFF11-loop/cursor advances by the announced 2 + following length, whatever the layout (22, 24 or longer)",
+                 after["offset"] == off(k) + 2 + fl, kind="loop-preserve")
         check_ability_record(h, lst.appended[0], b, "record k: ")
 
     h.it.loop_hooks[(ABL + ":AcAbilityDecoder.decode", 0)] = StateLoop("xFF11-loop", ["offset", "ac_abilities"], n_of, at, check, define=define)
@@ -671,16 +687,14 @@ def abl_decode(h):
         k = 0
         while o < mlen and k < len(recs) and o + 24 <= len(data):
             b = data[o:o + 26] + [0, 0]
-            known = b[1] in (ABILITY_FOLLOWING_OLD, ABILITY_FOLLOWING_NEW)
             check_ability_record(h, recs[k], b, "record k: ")
-            nxt_code = o + 24 + (2 if b[1] == 24 else 0)
-            h.oblige("xFF11-loop/following length 22 or 24: cursor advances by 2 + following length (24 / 26 bytes)",
-                     (not known) or nxt_code == o + 2 + b[1])
-            h.oblige("xFF11-loop/a record longer than a known layout (following length 23 or > 24) is decoded from its known prefix: cursor advances by the announced 2 + following length",
-                     not (b[1] == 23 or b[1] > 24) or nxt_code == o + 2 + b[1])
             h.oblige("xFF11-loop/a following length that cannot hold the known layout (< 22) is rejected", b[1] >= ABILITY_FOLLOWING_OLD)
             o += 2 + b[1]
             k += 1
+        # natively the cursor is not observable: the records found by walking the data with the announced strides
+        # must be exactly the decoded ones (each was compared with the bytes at its announced position above)
+        h.oblige("xFF11-loop/cursor advances by the announced 2 + following length, whatever the layout (22, 24 or longer)",
+                 k == len(recs) and o >= mlen)
         h.oblige("decoded list is exactly the N records the announced strides define", k == len(recs) and o >= mlen)
         h.oblige("accepted only if the records tile the announced length exactly", o == mlen)
     h.oblige("remaining = what follows the announced length", h.eq(h.attr(r.value, "remaining"), h.slice(buf, mlen)))
@@ -944,6 +958,18 @@ def ver_decode(h):
     r = h.method(h.new(VER + ":ConsoleVersionDecoder"), "decode", buf, at4_subheader(h, SUB_VERSION, mlen))
     h.oblige("returns or rejects", only_rejects(h, r))
     if not r.ok:
+        # which data may be rejected: missing update sign / length byte, an announced length that exceeds the data
+        # (since the fix 'a string length byte larger than the message data was accepted'), text that is not UTF-8
+        h.oblige("rejects only with IndexError, DecodeError or UnicodeDecodeError", r.raised("IndexError", "DecodeError", "UnicodeDecodeError"))
+        raw = h.items(buf)
+        if r.raised("IndexError"):
+            h.oblige("IndexError only when the update sign or the length byte is missing", And(mlen != 0, n < 2))
+        elif r.raised("DecodeError"):
+            h.oblige("DecodeError only when the announced version string length exceeds the data",
+                     And(mlen != 0, n >= 2, 2 + raw[1] > n if n >= 2 else False))
+        elif r.raised("UnicodeDecodeError"):
+            h.oblige("UnicodeDecodeError only for a version text that lies wholly inside the data",
+                     And(mlen != 0, n >= 2, 2 + raw[1] <= n if n >= 2 else False))
         return
     m = h.attr(r.value, "message")
     if h.isinstance(m, VER + ":ConsoleVersionRequest"):
@@ -1231,3 +1257,4 @@ def abl_decode_longer_record(h):
     if len(recs) >= 1:
         check_ability_record(h, recs[0], b[:26], "known prefix: ")
     h.oblige("nothing left over", h.length(h.attr(r.value, "remaining")) == 0)
+    h.cover("longer record decoded from its known prefix")
